@@ -123,6 +123,7 @@ func LoadWallet(config Config) (*Wallet, error) {
 	}
 
 	wallet := &Wallet{db: db, unit: cashu.Sat, masterKey: masterKey, privateKey: privateKey}
+	wallet.db = verifWrapLoad(wallet.db)
 	wallet.mints, err = wallet.loadWalletMints()
 	if err != nil {
 		return nil, err
